@@ -361,3 +361,166 @@ Section NormSeparation.
       rewrite Hp1, Hp2 in Ek. apply app_inv_tail in Ek. exact Ek.
   Qed.
 End NormSeparation.
+
+(* ---- when are two byte strings the same HMAC key?  (third audit, item 9) ----
+   hmac_key k = hmac_key k' has exactly three causes: zero padding inside the block, the
+   hash-of-a-long-key rule (both identities of RFC 2104), or two different long keys with the same
+   hash -- a located collision of the hash, which must be reported as an event and not be hidden in
+   the premise "normalised keys differ". *)
+Definition pad_twins (a a' : bytes) : Prop :=
+  a' = a ++ zeros (length a' - length a) \/ a = a' ++ zeros (length a - length a').
+
+Lemma firstn_zeros n m : (n <= m)%nat -> firstn n (zeros m) = zeros n.
+Proof.
+  revert m. induction n as [|n IH]; intros m Hle; [reflexivity|].
+  destruct m as [|m]; [lia|]. cbn. f_equal. apply IH. lia.
+Qed.
+
+Lemma pad_eq_iff a a' B : (length a <= B)%nat -> (length a' <= B)%nat ->
+  (a ++ zeros (B - length a) = a' ++ zeros (B - length a') <-> pad_twins a a').
+Proof.
+  intros Ha Ha'. split.
+  - intros E. destruct (Nat.le_gt_cases (length a) (length a')) as [Hle|Hgt].
+    + left. apply (f_equal (firstn (length a'))) in E.
+      rewrite firstn_app, (firstn_all2 (n := length a') a) in E by lia.
+      rewrite firstn_zeros in E by lia.
+      rewrite firstn_app, firstn_all, Nat.sub_diag in E. cbn [firstn] in E. rewrite app_nil_r in E.
+      symmetry. exact E.
+    + right. apply (f_equal (firstn (length a))) in E.
+      rewrite firstn_app, firstn_all, Nat.sub_diag in E. cbn [firstn] in E. rewrite app_nil_r in E.
+      rewrite firstn_app, (firstn_all2 (n := length a) a') in E by lia.
+      rewrite firstn_zeros in E by lia. exact E.
+  - intros [E|E].
+    + assert (Hl : (length a <= length a')%nat).
+      { apply (f_equal (@length N)) in E. rewrite app_length, zeros_length in E. lia. }
+      rewrite E at 1. rewrite <- app_assoc, zeros_app. f_equal. f_equal. lia.
+    + assert (Hl : (length a' <= length a)%nat).
+      { apply (f_equal (@length N)) in E. rewrite app_length, zeros_length in E. lia. }
+      rewrite E at 1. rewrite <- app_assoc, zeros_app. f_equal. f_equal. lia.
+Qed.
+
+Section HmacKeyEq.
+  Variable H : bytes -> bytes.
+  Variables B HL : nat.
+  Hypothesis H_len : forall x, length (H x) = HL.
+  Hypothesis HL_le : (HL <= B)%nat.
+
+  Theorem hmac_key_eq_cases k k' :
+    hmac_key H B k = hmac_key H B k' <->
+    ((length k <= B)%nat /\ (length k' <= B)%nat /\ pad_twins k k') \/       (* zero padding *)
+    ((B < length k)%nat /\ (length k' <= B)%nat /\ pad_twins (H k) k') \/    (* k' is the hashed long key k *)
+    ((length k <= B)%nat /\ (B < length k')%nat /\ pad_twins k (H k')) \/
+    ((B < length k)%nat /\ (B < length k')%nat /\ H k = H k').               (* k <> k': a hash collision *)
+  Proof.
+    unfold hmac_key.
+    destruct (Nat.ltb_spec B (length k)) as [Hk|Hk]; destruct (Nat.ltb_spec B (length k')) as [Hk'|Hk'].
+    - rewrite pad_eq_iff by (rewrite H_len; exact HL_le). split.
+      + intros [E|E]; rewrite !H_len, Nat.sub_diag in E; cbn [zeros repeat] in E; rewrite app_nil_r in E;
+          right; right; right; auto.
+      + intros [[? _]|[[_ [? _]]|[[? _]|[_ [_ E]]]]]; try lia. left. rewrite E, Nat.sub_diag. cbn. rewrite app_nil_r. reflexivity.
+    - rewrite pad_eq_iff by (rewrite ?H_len; lia). split.
+      + intros E. right; left. auto.
+      + intros [[? _]|[[_ [_ E]]|[[? _]|[_ [? _]]]]]; try lia. exact E.
+    - rewrite pad_eq_iff by (rewrite ?H_len; lia). split.
+      + intros E. right; right; left. auto.
+      + intros [[_ [? _]]|[[? _]|[[_ [_ E]]|[? _]]]]; try lia. exact E.
+    - rewrite pad_eq_iff by lia. split.
+      + intros E. left. auto.
+      + intros [[_ [_ E]]|[[? _]|[[_ [? _]]|[? _]]]]; try lia. exact E.
+  Qed.
+End HmacKeyEq.
+
+Section Exhaustive.
+  Variable Hash : hash_alg -> bytes -> bytes.
+  Hypothesis Hash_len : forall a x, length (Hash a x) = digest_size a.
+  Variable edpub : bytes -> bytes.
+
+  (* the nil-salt rule of Extract is itself zero padding: eff_salt does not change the HMAC key *)
+  Lemma eff_salt_norm h s :
+    hmac_key (Hash (alg_of h)) (block_size (alg_of h)) (eff_salt h s)
+    = hmac_key (Hash (alg_of h)) (block_size (alg_of h)) s.
+  Proof.
+    clear edpub. destruct s as [|x s]; [|reflexivity]. cbn [eff_salt]. rewrite hash_len_digest.
+    pose proof (digest_le_block' (alg_of h)) as Hle. unfold hmac_key. rewrite zeros_length.
+    destruct (Nat.ltb_spec (block_size (alg_of h)) (digest_size (alg_of h))); [lia|].
+    cbn [length]. destruct (Nat.ltb_spec (block_size (alg_of h)) 0); [lia|].
+    rewrite zeros_app. cbn [app]. f_equal. rewrite ?zeros_length. cbn [length]. lia.
+  Qed.
+
+  (* PRF keys with the same key bytes and the same NORMALISED salt derive the same key for every
+     caller salt: the general form of the two refuted theorems (an identity, not an event) *)
+  Theorem norm_equal_salts_derive_equal h ikm s s' t v id salt :
+    hmac_key (Hash (alg_of h)) (block_size (alg_of h)) s
+      = hmac_key (Hash (alg_of h)) (block_size (alg_of h)) s' ->
+    derive_key (std_hmac Hash) edpub (mkDKey h ikm s t v) id salt
+    = derive_key (std_hmac Hash) edpub (mkDKey h ikm s' t v) id salt.
+  Proof.
+    clear Hash_len. intros E. unfold derive_key, Derive.hkdf. cbn [k_hash k_ikm k_salt k_type k_variant].
+    assert (Ex : Derive.hkdf_extract (std_hmac Hash) h s ikm = Derive.hkdf_extract (std_hmac Hash) h s' ikm).
+    { unfold Derive.hkdf_extract. fold (eff_salt h s). fold (eff_salt h s').
+      unfold std_hmac, hmac. rewrite !eff_salt_norm, E. reflexivity. }
+    rewrite Ex. reflexivity.
+  Qed.
+
+  (* EXHAUSTIVE case split for two literally different PRF keys (same hash, same derived type) that
+     derive the same material of positive length for one caller salt:
+       (I)   same key bytes and salts that are the same HMAC key BY AN RFC IDENTITY: zero padding
+             within the block (incl. absent salt = HashLen zeros), or one salt longer than the block and
+             the other its hash (up to zero padding) -- the refuted class, no event;
+       (II)  same key bytes and two different salts longer than the block with the same hash: a located
+             COLLISION OF THE HASH at (salt, salt');
+       (III) normalised-different: the reduction (Extract collision on normalised-different inputs, or
+             truncated HMAC collision under PRKs with different normalisations). *)
+  Theorem prf_key_separation_exhaustive k k' id id' salt dk dk' :
+    k_hash k = k_hash k' -> k_type k = k_type k' ->
+    (k_salt k, k_ikm k) <> (k_salt k', k_ikm k') ->
+    (0 < consumption (k_type k))%nat ->
+    derive_key (std_hmac Hash) edpub k id salt = Some dk ->
+    derive_key (std_hmac Hash) edpub k' id' salt = Some dk' ->
+    r_material dk = r_material dk' ->
+    let h := k_hash k in
+    let H := Hash (alg_of h) in let B := block_size (alg_of h) in
+    let s := k_salt k in let s' := k_salt k' in
+    let prk := hmac H B (eff_salt h s) (k_ikm k) in
+    let prk' := hmac H B (eff_salt h s') (k_ikm k') in
+    let n := Nat.min (consumption (k_type k)) (hash_len h) in
+    (* (I) *)
+    (k_ikm k = k_ikm k' /\ s <> s' /\
+       (((length s <= B)%nat /\ (length s' <= B)%nat /\ pad_twins s s') \/
+        ((B < length s)%nat /\ (length s' <= B)%nat /\ pad_twins (H s) s') \/
+        ((length s <= B)%nat /\ (B < length s')%nat /\ pad_twins s (H s')))) \/
+    (* (II) *)
+    (k_ikm k = k_ikm k' /\ (B < length s)%nat /\ (B < length s')%nat /\ s <> s' /\ H s = H s') \/
+    (* (III) *)
+    ((0 < n <= hash_len h)%nat /\
+     (((hmac_key H B s <> hmac_key H B s' \/ k_ikm k <> k_ikm k') /\ length prk = hash_len h /\ prk = prk')
+      \/
+      (hmac_key H B prk <> hmac_key H B prk' /\
+       length (firstn n (hmac H B prk (salt ++ [1]))) = n /\
+       firstn n (hmac H B prk (salt ++ [1])) = firstn n (hmac H B prk' (salt ++ [1]))))).
+  Proof.
+    intros Hh Ht Hne Hpos Hd Hd' Hm h H B s s' prk prk' n.
+    destruct (list_eq_dec N.eq_dec (hmac_key H B s) (hmac_key H B s')) as [Ek|NEk].
+    - destruct (list_eq_dec N.eq_dec (k_ikm k) (k_ikm k')) as [Ei|NEi].
+      + assert (Hs : s <> s') by (intros E; apply Hne; subst s s'; rewrite E, Ei; reflexivity).
+        apply (hmac_key_eq_cases H B (digest_size (alg_of h)) (Hash_len (alg_of h)) (digest_le_block' (alg_of h))) in Ek.
+        destruct Ek as [C|[C|[C|[Hl [Hl' E]]]]].
+        * left. split; [exact Ei|]. split; [exact Hs|]. left. exact C.
+        * left. split; [exact Ei|]. split; [exact Hs|]. right; left. exact C.
+        * left. split; [exact Ei|]. split; [exact Hs|]. right; right. exact C.
+        * right; left. repeat split; assumption.
+      + right; right.
+        destruct (prf_key_separation_reduction_norm Hash Hash_len edpub k k' id id' salt dk dk' Hh Ht) as [Hn Hev];
+          try assumption.
+        { intros E. inversion E. contradiction. }
+        split; [exact Hn|]. destruct Hev as [[Hdiff Hx]|Hx]; [left|right; exact Hx].
+        split; [|exact Hx]. right. exact NEi.
+    - right; right.
+      destruct (prf_key_separation_reduction_norm Hash Hash_len edpub k k' id id' salt dk dk' Hh Ht) as [Hn Hev];
+        try assumption.
+      { intros E. inversion E as [[E1 E2]]. apply NEk. subst h H B s s'.
+        rewrite !eff_salt_norm in E1. exact E1. }
+      split; [exact Hn|]. destruct Hev as [[Hdiff Hx]|Hx]; [left|right; exact Hx].
+      split; [|exact Hx]. left. exact NEk.
+  Qed.
+End Exhaustive.
